@@ -98,8 +98,8 @@ def distances(bits, rng, thorough):
         ds.add(rng.randint(-(1 << k), 1 << k) & ~3)
         ds.add(rng.randint(-(1 << k), 1 << k) & ~1)
     if thorough:
-        for k in range(2, bits + 1):
-            ds.update({1 << k, -(1 << k), (1 << k) - 2, (1 << k) - 4})
+        for k in range(2, bits + 1, 2):
+            ds.update({1 << k, -(1 << k), (1 << k) - 4})
     return sorted(ds)
 
 
@@ -364,17 +364,32 @@ def check_llvm(ctx):
             cases.append((isa, rtype, triple, extra, data))
     reqs = [f"roff {isa} {rtype} {data.hex()}" for isa, rtype, _t, _e, data in cases]
     out = ctx.driver("C11", reqs) if reqs else []
-    for (isa, rtype, triple, extra, data), m in zip(cases, out):
-        txt = " ".join(f"0x{b:02x}" for b in data)
+    # one llvm-mc process per (triple, attributes): one instruction per input line, one output line each
+    groups = {}
+    for i, (isa, rtype, triple, extra, data) in enumerate(cases):
+        groups.setdefault((triple, tuple(extra)), []).append(i)
+    llvm = {}
+    for (triple, extra), idxs in groups.items():
+        txt = "".join(" ".join(f"0x{b:02x}" for b in cases[i][4]) + "\n" for i in idxs)
         p = subprocess.run(["llvm-mc", "--disassemble", f"--triple={triple}", *extra], input=txt, capture_output=True, text=True)
-        nums = re.findall(r"#?(-?\d+)\s*$", p.stdout.strip().splitlines()[-1]) if p.stdout.strip() else []
+        lines = [l for l in p.stdout.splitlines() if l.strip() and not l.strip().startswith(".")]
+        if len(lines) != len(idxs):
+            ctx.note(f"llvm-mc {triple}: {len(lines)} instructions for {len(idxs)} inputs; group skipped")
+            continue
+        for i, l in zip(idxs, lines):
+            llvm[i] = l
+    for i, ((isa, rtype, triple, extra, data), m) in enumerate(zip(cases, out)):
+        if i not in llvm:
+            continue
+        nums = re.findall(r"#?(-?\d+)\s*$", llvm[i].strip())
         ctx.count("eval_llvm_spec_validation")
         if not nums:
             ctx.count("llvm_no_operand")
             continue
         llvm_off = int(nums[-1]) + PC_BIAS[isa]          # LLVM prints the offset relative to PC (+8 arm, +4 thumb)
         if m != f"ok {llvm_off}":
-            ctx.disagree("Spec.RelocSem vs llvm-mc", {"isa": isa, "type": rtype, "bytes": data.hex()}, f"llvm offset {llvm_off}", m)
+            ctx.disagree("Spec.RelocSem vs llvm-mc", {"isa": isa, "type": rtype, "bytes": data.hex(), "llvm": llvm[i].strip()},
+                         f"llvm offset {llvm_off}", m)
 
 
 def check(ctx):
